@@ -485,42 +485,8 @@ def inv5(rep, mod, table, rule='INV-5'):
                   'reaches the cache only through self._getcache / self.lookup '
                   '(dynamic dispatch, so the verifying override applies)',
                   construct='indirect', node=f)
-    # _verify itself
-    f = vms.get('_verify')
-    rep.require(f is not None, 'VerifyingBase._verify vanished')
-    ifs = [n for n in walk_local(f) if isinstance(n, ast.If)]
-    ok = False
-    detail = 'no comparison of current and recorded generations found'
-    for i in ifs:
-        t = i.test
-        if isinstance(t, ast.Compare) and len(t.ops) == 1 and \
-                isinstance(t.ops[0], ast.NotEq):
-            sides = [t.left, t.comparators[0]]
-            cur = [s for s in sides if match(
-                '[$r._generation for $r in self._verify_ro]', s) is not None]
-            rec = [s for s in sides if match('self._verify_generations', s)
-                   is not None]
-            calls = find_all(i, 'self.changed($$a)')
-            inbody = any(shared.stmt_of(c) in i.body for c, _ in calls)
-            if cur and rec and inbody:
-                ok = True
-                detail = ('compares [r._generation for r in self._verify_ro] with '
-                          'self._verify_generations and calls self.changed() on '
-                          'any difference')
-    rep.check(rule, 'VerifyingBase._verify', ok, detail, construct='compare',
-              node=f)
-    # snapshots taken in changed()
-    ch = vms.get('changed')
-    cfg = cfg_of(ch)
-    a = pred_of('self._verify_ro = self._registry.ro[1:]', 'exec')
-    b = pred_of('self._verify_generations = [$r._generation for $r in self._verify_ro]', 'exec')
-    ok = must_on_all_paths(cfg, a) and must_on_all_paths(cfg, b)
-    okorder = all(cfg.dominated_by(n, a) for n in cfg.nodes
-                  if n.ast is not None and b(n))
-    rep.check(rule, 'VerifyingBase.changed', ok and okorder,
-              're-snapshots _verify_ro = registry.ro[1:] and then the '
-              'generations of exactly those registries (both=%s, order=%s)'
-              % (ok, okorder), construct='snapshot', node=ch)
+    from . import specsem
+    specsem.verifying_py(rep, mod, rule)
 
 
 def inv6(rep):
